@@ -17,6 +17,7 @@
 Not decided: that eigsh converges; the numeric value of the bound.
 """
 import ast
+import re
 
 from ..engines.solvers import find_setup
 from ..srcmodel import clone, AnalysisError, U, calls_in, walk_shallow, target_names, names_in
@@ -1210,7 +1211,35 @@ def check_lipschitz(ctx, fi, s2):
     # Q may be wrapped: aslinearoperator(Q)
     arg = arg.replace('aslinearoperator(%s)' % Q, Q)
     ok_op = arg in ('%s.H*%s' % (Q, Q), '%s.T*%s' % (Q, Q), '%s.T@%s' % (Q, Q), '%s.H@%s' % (Q, Q))
-    ctx.ob('lipschitz-form', fi, eig_calls[0], ok_op, 'largest eigenvalue must be that of Q^T Q of the measurement\'s own query; computed of `%s`' % arg)
+    branchy = None
+    a0 = eig_calls[0].args[0]
+    if not ok_op and isinstance(a0, ast.Name):
+        # the operator bound in the two arms of `if isinstance(Q, LinearOperator):` - `*` composes LinearOperators (and multiplies scipy.sparse
+        # MATRICES) but is the ELEMENTWISE product of dense arrays and sparse arrays; `@` is the matrix product of everything
+        arms = []
+        for i_ in ast.walk(s2['outer']):
+            if isinstance(i_, ast.If) and U(i_.test).replace(' ', '') in ('isinstance(%s,LinearOperator)' % Q, 'isinstance(%s,scipy.sparse.linalg.LinearOperator)' % Q):
+                for blk, linop in ((i_.body, True), (i_.orelse, False)):
+                    for a_ in blk:
+                        if isinstance(a_, ast.Assign) and len(a_.targets) == 1 and U(a_.targets[0]) == a0.id:
+                            arms.append((a_, linop))
+        if len(arms) == 2:
+            branchy = True
+            for a_, linop in arms:
+                t_ = U(a_.value).replace(' ', '')
+                m_ = re.fullmatch(r'aslinearoperator\((.+)\)', t_)
+                t_ = m_.group(1) if m_ else t_
+                star = t_ in ('%s.H*%s' % (Q, Q), '%s.T*%s' % (Q, Q))
+                at = t_ in ('%s.T@%s' % (Q, Q), '%s.H@%s' % (Q, Q))
+                if not star and not at:
+                    raise AnalysisError('_lipschitz: operator `%s` in no recognised form' % U(a_.value)[:60])
+                ok_arm = at or (star and linop)
+                ctx.ob('lipschitz-form', fi, a_, ok_arm, 'largest eigenvalue must be that of Q^T Q of the measurement\'s own query; for %s computed of `%s`%s'
+                       % ('a LinearOperator' if linop else 'an explicit matrix', t_, '' if ok_arm else
+                          ': `*` between an explicit matrix and its transpose is the ELEMENTWISE product for dense arrays and scipy.sparse arrays (a matrix '
+                          'product only for scipy.sparse matrices)'), construct='Gram operator (%s)' % ('operator' if linop else 'matrix'))
+    if branchy is None:
+        ctx.ob('lipschitz-form', fi, eig_calls[0], ok_op, 'largest eigenvalue must be that of Q^T Q of the measurement\'s own query; computed of `%s`' % arg)
 
     def hook(call, ev):
         f = U(call.func)
